@@ -25,12 +25,12 @@ Qed.
 
 (** a new instance gets a root frame that did not exist before: no other instance's root frame,
     closure or library frame can be that frame *)
-Theorem new_instance_fresh_root : forall base write st syn st' syn' inst,
-  new_instance base write st syn = (Ok inst, st', syn') ->
+Theorem new_instance_fresh_root : forall base write bn wn st syn st' syn' inst,
+  new_instance base write bn wn st syn = (Ok inst, st', syn') ->
   i_env inst = length (frames st) /\ nth_error (frames st) (i_env inst) = None /\
   i_in_progress inst = [] /\ i_import_end inst = false /\ i_progdir inst = None.
 Proof.
-  intros base write st syn st' syn' inst H. unfold new_instance in H.
+  intros base write bn wn st syn st' syn' inst H. unfold new_instance in H.
   destruct (alloc_frame st None) as [env st1] eqn:EA.
   assert (Henv : env = length (frames st)) by (unfold alloc_frame in EA; now injection EA as <- _).
   unfold factory_from_text in H.
